@@ -97,8 +97,8 @@ func nontrivialC02(res *ref.Result) bool {
 // c02Fronts: the same exactness oracle on records presented through every front end (what the front end presents is
 // computed independently: decoded JSON, the documented presentation of URL parameters, trimmed environment values).
 func c02Fronts(c *core.Ctx) {
-	flat := c.R.Intn(10) < 7
-	fo := gen.FrontOpts{Flat: flat, EnvOnly: flat && c.R.Intn(3) == 0, MaxDepth: 2, MaxFields: 4, KeepIssuePath: true}
+	flat := c.R.Intn(10) < 6
+	fo := gen.FrontOpts{Flat: flat, EnvOnly: flat && c.R.Intn(3) == 0, MaxDepth: 3, MaxFields: 4, KeepIssuePath: true}
 	n := gen.RecordSchema(c.R, fo)
 	fronts := []string{"zjson", "zhttp-json"}
 	if flat {
@@ -106,6 +106,11 @@ func c02Fronts(c *core.Ctx) {
 		if fo.EnvOnly {
 			fronts = append(fronts, "env")
 		}
+	}
+	if c.R.Intn(4) == 0 {
+		// the whole record behind a top-level pointer (the documented way to make a request body optional)
+		n = &spec.Node{Kind: spec.Ptr, Elem: n}
+		n.Number()
 	}
 	src := n.Source()
 	for k := 0; k < 5; k++ {
